@@ -8,6 +8,9 @@ import (
 type pendingMsg struct {
 	msgChan   chan Message
 	timestamp time.Time
+	// waiting is set while a caller is blocked on msgChan. Such entries are
+	// never discarded, only orphaned replies are.
+	waiting bool
 }
 
 type pendingItem struct {
@@ -35,9 +38,15 @@ func pendingOldest(pending map[string]pendingMsg, num int) pendingQueue {
 	}
 	queue := make(pendingQueue, 0, len(pending))
 	for key, p := range pending {
+		if p.waiting {
+			continue
+		}
 		queue = append(queue, pendingItem{
 			key, p.timestamp,
 		})
+	}
+	if num > len(queue) {
+		num = len(queue)
 	}
 	sort.Sort(queue)
 	return queue[:num]
